@@ -136,3 +136,22 @@ fn c13_owner_numeric_and_named() {
     assert!(r2.is_ok() && nix_st().chown_uid.is_none() && nix_st().chown_gid.is_none(), "C13: key-file owner settings applied to the certificate file");
     core::mem::forget(fm);
 }
+
+#[kani::proof]
+#[kani::stub(std::hash::RandomState::new, rs_stub)]
+#[kani::stub(alloc::fmt::format, crate::verif_env::fmt_stub)]
+#[kani::unwind(2)]
+fn dbg_write_min() {
+    let e = env();
+    e.fs_exists = true;
+    e.fs_len = 2;
+    let fm = mk_fm(0o600, 0o644);
+    let newd = [7u8];
+    let r = block_on(write_file(&fm, FileType::Certificate, &newd[..]));
+    let e = env();
+    if r.is_ok() {
+        assert!(e.fs_len == 1, "C02: residue");
+    }
+    core::mem::forget(r);
+    core::mem::forget(fm);
+}
